@@ -45,9 +45,11 @@ def cfg(t):
 
 
 def targets(tier):
-    ts = [mk(25), mk(1000, big=True), mk(125_000_000, big=True)]
+    # 177 Hz: ceil(0.36 f) = 64 = 2^6 -- the 360 ms compare value needs one bit more than 360 ms - 1 (a counter sized
+    # range(T360) instead of range(T360 + 1) can never reach it); 300 Hz: ceil(0.012 f) = 4 = 2^2.
+    ts = [mk(25), mk(177, big=True), mk(300, big=True), mk(1000, big=True), mk(125_000_000, big=True)]
     if tier != "quick":
-        ts += [mk(100), mk(25, loosen=False), mk(250, big=True), mk(1000, loosen=False, big=True), mk(62_500_000, big=True)]
+        ts += [mk(177), mk(100), mk(25, loosen=False), mk(250, big=True), mk(1000, loosen=False, big=True), mk(62_500_000, big=True)]
     return ts
 
 
@@ -105,9 +107,37 @@ def scripted(t, rng, n_cycles):
     return tr[:n_cycles]
 
 
+def quiet_word(**kw):
+    d = {n: 0 for n in IN_PORTS}
+    d["phy_ready"] = 1
+    d.update(kw)
+    return d
+
+
+def timeout_traces(t):
+    """Silent-partner histories that sit in a timed state until its time-out must fire (only at scaled clocks)."""
+    if t.T360 > 600:
+        return []
+    bring = [quiet_word(), quiet_word(link_partner_detected=1)]
+    out = []
+    # Polling.LFPS, partner never answers: 360 ms -> Compliance -> Rx.Detect; once more after polling was seen -> SS.Disabled
+    out.append(bring + [quiet_word()] * (t.T360 + 6) + [quiet_word(link_partner_detected=1)] + [quiet_word()] * 4)
+    out.append(bring + [quiet_word(lfps_polling_detected=1)] + [quiet_word()] * (t.T360 + 6))
+    # Rx.Detect.Quiet (12 ms), Polling.Active (12 ms), Polling.Configuration (12 ms), Polling.Idle (2 ms)
+    out.append([quiet_word(), quiet_word(no_link_partner_detected=1)] + [quiet_word()] * (t.T12 + 4))
+    train = bring + [quiet_word(lfps_polling_detected=1, lfps_cycles_sent=16), quiet_word(lfps_cycles_sent=21),
+                     quiet_word(ts_burst_complete=1)]
+    out.append(train + [quiet_word()] * (t.T12 + 4))
+    train2 = train + [quiet_word(ts_burst_complete=1), quiet_word(ts1_detected=1)]
+    out.append(train2 + [quiet_word()] * (t.T12 + 4))
+    train3 = train2 + [quiet_word(ts2_detected=1), quiet_word(ts_burst_complete=1), quiet_word(ts_burst_complete=1)]
+    out.append(train3 + [quiet_word()] * (t.T2 + 4))
+    return out
+
+
 def traces(target, rng, tier):
     n = 14 if tier == "quick" else 30
-    out = []
+    out = timeout_traces(target)
     for k in range(n):
         L = rng.randint(40, 260) if k % 5 else rng.randint(300, 300 + 3 * min(target.T360, 400))
         if k % 7 == 6:      # pure noise
@@ -198,7 +228,8 @@ ASSUMPTIONS = [
     "alphabets (Model/Ltssm.v: lt_alpha_small 16 words: quick, and 100 Hz / strict mode in thorough; lt_alpha_core 28 words, lt_alpha_opt_a 15 words, lt_alpha_opt_b 16 words at 25 Hz: thorough): every event "
     "alone, warm reset alone and coinciding with each event, lfps_cycles_sent around the Polling.LFPS thresholds, optional requests; "
     "input words outside the alphabets: correspondence + specification oracle on simulator traces at 1 kHz, 125 MHz (quick) + "
-    "250 Hz, 62.5 MHz, strict mode (thorough)",
+    "250 Hz, 62.5 MHz, strict mode (thorough); 177 Hz (T360 = 64 = 2^6: the compare value needs the counter's top bit) and "
+    "300 Hz (T12 = 4) with silent-partner histories that cross every time-out (quick: correspondence + oracle; 177 Hz R tie in thorough)",
 ]
 LEVEL_TEXT = ("Machine-checked proof about a code-shaped model, tied to the code. For every time-out configuration that fits the "
               "counter, both loosen modes and EVERY input history, the model's input/output trace is accepted by the ghost-history "
